@@ -13,7 +13,7 @@ from .source import Repo
 from .interp import Interp, Obligation
 from .specs import SpecRegistry, prove_lemmas
 from .contracts import Contract, verify_function
-from .values import Unsupported, Sym, Ref
+from .values import Unsupported, StaleContract, Sym, Ref
 from .lib import install_models
 from .solve import discharge, parse_model, smt2_of
 from . import solve
@@ -191,6 +191,7 @@ class Runner:
         self.specs = SpecRegistry(os.path.join(VERIF, 'contracts', 'spec.py'))
         self.violations = []
         self.undecided = []
+        self.stale = []          # units whose contract no longer binds to the code (not verified in this run; see StaleContract)
         self.log = []
         self.refute_budget_s = 150 if tier == 'quick' else 900
         self.discharge_budget_s = 900 if tier == 'quick' else 3600
@@ -253,6 +254,9 @@ class Runner:
                 func_summaries.append(s)
                 if s['obligations'] == 0:
                     self.undecided.append((u.contract.qual, 'generated zero obligations (vacuous contract?)'))
+            except StaleContract as e:
+                del ip.obls[n0:]
+                self.stale.append((u.contract.qual, str(e)))
             except Unsupported as e:
                 del ip.obls[n0:]
                 self.undecided.append((u.contract.qual, 'unsupported: %s' % e))
@@ -336,8 +340,13 @@ class Runner:
                 self.say('  input: %r' % (v.inputs,))
             if v.detail:
                 self.say('  detail: %s' % v.detail[:400])
+        if self.stale and not chk.customs:
+            # no bounded stand-in covers the function either: nothing decided the property for it in this run
+            self.undecided.extend((q, 'contract out of date with the code and no bounded stand-in: %s' % w) for q, w in self.stale)
         for name, why in self.undecided:
             self.say('UNDECIDED property=%s obligation=%s reason=%s' % (self.pid, name, why[:300]))
+        for q, why in self.stale:
+            self.say('STALE-CONTRACT property=%s function=%s not verified in this run (the bounded stand-ins still ran): %s' % (self.pid, q, why[:300]))
         # ---- evidence
         nground = len(ground_results)
         ncustom = sum(r.get('obligations', 0) for r in custom_results)
@@ -370,7 +379,7 @@ class Runner:
         for r in custom_results:
             samples.extend(r.get('samples', [])[:4])
         held = not unlisted and not self.undecided
-        level = chk.level if (ndis == total and total > 0 and not self.undecided) else 'other'
+        level = chk.level if (ndis == total and total > 0 and not self.undecided and not self.stale) else 'other'
         files = {}
         for u in chk.units:
             try:
@@ -394,20 +403,22 @@ class Runner:
                 'by_backend': by_backend, 'solver_time_s': round(solver_time, 2), 'solver_wall_s': round(solver_wall, 2), 'slow_queries': slow,
                 'bounded': chk.bounded, 'not_decided_clauses': chk.not_decided,
                 'undecided': [{'obligation': n, 'reason': w[:300]} for n, w in self.undecided],
+                'stale_contracts': [{'function': q, 'reason': w[:300]} for q, w in self.stale],
                 'known_findings_confirmed': sorted(confirmed),
                 'vacuity': vac,
                 'extraction_dropped': ['type annotations', 'cast() wrappers', 'docstrings/comments', 'decorators kept as calling convention'],
                 'exhaustive': bool(getattr(chk, 'exhaustive', False)),
             },
-            'assumptions': chk.assumptions + sorted(ip.assumed) + [
+            'assumptions': ['NOT VERIFIED in this run: %s -- its contract no longer binds to the code (%s); only the bounded stand-ins covered it' % (q, w[:200])
+                            for q, w in self.stale] + chk.assumptions + sorted(ip.assumed) + [
                 'assumed contract (stub, not verified in this check): %s%s' % (c.qual, (' -- ' + c.note) if getattr(c, 'note', None) else '')
                 for c in getattr(chk, 'stubs', []) if c.qual in ip.used_contracts and c.qual not in files],
         }
         os.makedirs(os.path.join(VERIF, 'evidence'), exist_ok=True)
         with open(os.path.join(VERIF, 'evidence', '%s.json' % self.pid), 'w') as f:
             json.dump(ev, f, indent=1)
-        self.say('%s: %d obligations, %d discharged, %d violations (%d known), %d undecided, %.1fs' % (
-            self.pid, total, ndis, len(unlisted), len(listed), len(self.undecided), time.time() - self.t0))
+        self.say('%s: %d obligations, %d discharged, %d violations (%d known), %d undecided%s, %.1fs' % (
+            self.pid, total, ndis, len(unlisted), len(listed), len(self.undecided), (', %d stale contracts' % len(self.stale)) if self.stale else '', time.time() - self.t0))
         if unlisted:
             return 1
         if self.undecided:
